@@ -123,7 +123,7 @@ def propagate_function(f, ref_names):
                     continue
                 # building the object once and reading it several times is not the same text as building it several times: a built
                 # value with more than one use stays a local (only subscript reads of a constant index count as "the same element")
-                if len(loads) != 1 and any(isinstance(x, ast.Call) for x in ast.walk(e)):
+                if len(loads) != 1 and any(isinstance(x, ast.Call) and not (isinstance(x.func, ast.Name) and x.func.id in (SCALAR | {'slice'})) for x in ast.walk(e)):
                     continue
                 # a generator expression is consumed by its first use
                 if isinstance(e, ast.GeneratorExp) and len(loads) != 1:
